@@ -62,6 +62,7 @@ func genC04(rng *rand.Rand, tier string) *core.Plan {
 		}
 	}
 	p.Ops = append(p.Ops, core.Op{K: "rollup"}, core.Op{K: "reopen"}, core.Op{K: "rollup"})
+	p.Cfg["maporder"] = rng.Intn(2) // tape-chosen iteration order of Go maps in the code under test
 	return p
 }
 
